@@ -222,7 +222,7 @@ int main(int argc, char **argv) {
         }
         return c;
     });
-    bool ok = run_cases(a, ev, "c07-histories", a.n(8000, 150000), 100, gen, run);
+    bool ok = run_cases(a, ev, "c07-histories", a.n(48000, 400000), 100, gen, run);
     ev.write(a.out);
     return ok ? 0 : 1;
 }
